@@ -477,6 +477,14 @@ namespace DFS
 	  return false;		// prefer right since not 16-sector
 	else if (right.geometry.sectors == 16 && left.geometry.sectors != 16)
 	  return true;		// prefer left since not 16-sector
+	// A two-sided candidate gets this far only if we found a valid
+	// catalog where its second side should begin (see
+	// other_side_has_catalog_too above).  That is more specific
+	// evidence than the size of the file system, so prefer it;
+	// otherwise a two-sided image would never be recognised as
+	// such, since the one-sided geometry is always smaller.
+	if (left.geometry.heads != right.geometry.heads)
+	  return left.geometry.heads > right.geometry.heads;
 	// Otherwise, pick the smaller option.
 	return left.geometry.total_sectors() < right.geometry.total_sectors();
       };
